@@ -8,6 +8,7 @@ import kani
 from driver import Undecided, VERIF, WORK
 
 import interp
+import codec
 
 MACHINERY_FILES = ('src/spec.rs', 'contract.rs', 'src/shadow.rs', 'src/x86.rs')
 
@@ -81,6 +82,12 @@ def kani_unit(gen, cfg='std', harness_file='src/harnesses.rs', trusted=None, ass
                     known_by_id.setdefault(fid, dict(f=f, hs=[], rp=rp))['hs'].append(h)
                 else:
                     known.append('NOTE: known finding %s no longer fails in %s/%s (stale entry in known_findings.json; nothing is suppressed by it any more)' % (fid, unit_name, h))
+                continue
+            if hk.get('kind') == 'should_panic':
+                obligations.append(dict(unit=unit_name, harness=h, name='should_panic harness: the panic is reached on every path satisfying the assumption',
+                                        status='ok' if res['status'] == 'Success' else ('undecided' if cls == 'undecided' else 'failed'),
+                                        backend='kani/cbmc+cadical', seconds=res.get('seconds'), why='',
+                                        output='' if res['status'] == 'Success' else json.dumps(res.get('error'))[:600]))
                 continue
             if cls == 'undecided':
                 obligations.append(dict(unit=unit_name, harness=h, name='harness did not complete', status='undecided',
@@ -159,6 +166,7 @@ def verus_unit(gen, trusted=None, assumptions=None):
 UNITS = {
     'interp': dict(run=kani_unit(interp.generate, harness_file='src/interpreter/harnesses.rs'),
                    witness=None),
+    'codec': dict(run=kani_unit(codec.generate, harness_file='src/lib.rs')),
 }
 
 
